@@ -768,6 +768,16 @@ func (c *CCtx) call(n Call) CVal {
 			bindFail("captured: %s is not a closure created on this path", a.T)
 		}
 		return c.val(ci.Bindings[k], ci.Types[k])
+	case "payload": // payload(v, "pkg.T"): the struct value of type T inside the interface value v (meaningful where typeis(v, "pkg.T"))
+		a := arg(0)
+		tn := expandType(n.Args[1].(StrLit).V)
+		gt := c.e.lookupNamed(tn)
+		if gt == nil {
+			bindFail("payload: type %s not found", tn)
+		}
+		srt := c.e.sorts.SortOf(gt)
+		c.e.declOnce(fmt.Sprintf("(declare-fun payload_%s (Any) %s)", srt, srt))
+		return c.val(fmt.Sprintf("(payload_%s %s)", srt, a.T), gt)
 	case "unbox": // unbox(v): the concrete value inside an interface whose dynamic type is statically known (whatever it is)
 		a := arg(0)
 		bi, ok := c.st.boxed[a.T]
@@ -1029,4 +1039,17 @@ func collectEntriesOrd(x Expr, ord int, out *[]Expr) {
 			collectEntriesOrd(a, ord, out)
 		}
 	}
+}
+
+// lookupNamed: the named type "pkg/path.Name" of the loaded program, nil if there is none.
+func (e *Exec) lookupNamed(tn string) types.Type {
+	i := strings.LastIndex(tn, ".")
+	if i < 0 {
+		return nil
+	}
+	pk := e.fn.Prog.ImportedPackage(tn[:i])
+	if pk == nil || pk.Type(tn[i+1:]) == nil {
+		return nil
+	}
+	return pk.Type(tn[i+1:]).Type()
 }
